@@ -295,7 +295,8 @@ impl<'a> Lexer<'a> {
     fn preprocessor(&mut self) -> TokenKind {
         let ident_start = self.s.cursor();
 
-        self.s.eat_while(char::is_alphabetic);
+        // the whole word counts: "#else_x" and "#endif2" are a paste followed by an identifier
+        self.s.eat_while(is_identifier_continue);
         let ident = self.s.from(ident_start);
 
         match ident {
